@@ -105,6 +105,8 @@ PARSER_PARAMS = {
     'h20': {'quick': {'handler': 'plain', 'params': {'PARSE_N': 12, 'TAIL_N': 6}}, 'thorough': {'handler': 'plain', 'params': {'PARSE_N': 18, 'TAIL_N': 12}}},
     'h40': {'quick': {'handler': 'plain', 'params': {'PARSE_N': 20, 'TAIL_N': 6}}, 'thorough': {'handler': 'plain', 'params': {'PARSE_N': 30, 'TAIL_N': 12}}},
 }
+# thorough tier: the all-bytes harnesses of v3.x are the longest single jobs; discharge them in parallel
+PARSER_PARAMS[r'h3[01]\.C\d\d_(Accept|Values|Parse)$'] = {'quick': {}, 'thorough': {'handler': 'plain'}}
 # element-structured inputs (harness structInput): one run per SHAPE; each decimal digit is the length of one
 # '/'-separated element after the canonical base part, every byte of an element arbitrary except '/'
 STRUCT_SHAPES = {
@@ -134,7 +136,7 @@ PROPS['C01'] = {
     'text': 'bounded model checking of the real ParseVector (and split/splitCouple/strings.Cut/kvm.Set/Set/validate, sync.Pool stub) against a reference recogniser written from the grammar: accept <=> grammar accepts, (object, error) nil-ness, and no panic / out-of-range index / failed type assertion on any path',
     'bounds': PARSER_BOUNDS,
     'solvers': {'quick': ['z3'], 'thorough': ['z3', 'z3new']},
-    'timeout': {'quick': 900, 'thorough': 3600},
+    'timeout': {'quick': 900, 'thorough': 1200},
     'per_harness': PARSER_PARAMS,
     'technique': 'SMT-based bounded model checking of the real parser (go/ssa -> SMT-LIB2, z3) against a reference recogniser, counterexamples replayed natively',
 }
@@ -144,7 +146,7 @@ PROPS['C06'] = {
     'text': 'after a successful ParseVector(s) every Get(m) equals the value the reference tokeniser reads for m in s (not-defined when absent), for all inputs of the bounded spaces',
     'bounds': PARSER_BOUNDS,
     'solvers': {'quick': ['z3'], 'thorough': ['z3', 'z3new']},
-    'timeout': {'quick': 900, 'thorough': 3600},
+    'timeout': {'quick': 900, 'thorough': 1200},
     'per_harness': PARSER_PARAMS,
     'technique': PROPS['C01']['technique'],
 }
@@ -179,7 +181,7 @@ PROPS['C13'] = {
     'text': 'no string is accepted by two versions: all four real parsers are executed symbolically on the same input; (a) every byte string up to PARSE_N, (b) for each version, every string with that version\'s header and canonical base part (arbitrary values) and an arbitrary tail is rejected by the three other parsers',
     'bounds': 'quick: (a) PARSE_N = 10, (b) tail <= 6; thorough: 16 / 12. The second half of the property (Vector() output) follows from (b) together with C08 (Vector() output starts with the version\'s header and canonical base part); not checked directly',
     'solvers': {'quick': ['z3'], 'thorough': ['z3', 'z3new']},
-    'timeout': {'quick': 900, 'thorough': 3600},
+    'timeout': {'quick': 900, 'thorough': 1200},
     'per_harness': {'.': {'quick': {'params': {'PARSE_N': 10, 'TAIL_N': 6}}, 'thorough': {'params': {'PARSE_N': 16, 'TAIL_N': 12}}}, 'OneVersion': {'handler': 'plain'},
                     'C13_VectorHeader': {'handler': 'groups_decide', 'ignore_kinds': ['growth']}},
     'technique': PROPS['C01']['technique'],
@@ -190,7 +192,7 @@ PROPS['C14'] = {
     'text': 'PARTIAL (sequential part): (i) v2.0 ParseVector gives the same result whatever an earlier call left in the pooled scratch slice (sync.Pool.Get modelled as returning arbitrary contents, two calls compared); (ii) confinement: in every symbolic run of every check no exported function stores to a package-level variable after initialisation and nothing is accessed after Put (obligations "confinement"/"released" of all parser harnesses); interleavings and the Go memory model are NOT decided by the solver: race freedom is argued from (i)-(ii), value-type receivers and the sync.Pool contract',
     'bounds': 'inputs as for C01 (PARSE_N / TAIL_N); concurrency itself is outside the claim',
     'solvers': {'quick': ['z3'], 'thorough': ['z3', 'z3new']},
-    'timeout': {'quick': 900, 'thorough': 3600},
+    'timeout': {'quick': 900, 'thorough': 1200},
     'per_harness': PARSER_PARAMS,
     'technique': PROPS['C01']['technique'],
 }
@@ -205,7 +207,7 @@ PROPS['C08'] = {
     'technique': 'SMT over the symbolically executed Vector()/lenVec/append code: structural comparison of append-only buffers, condition equivalences discharged by z3',
     'reuse': ['C08_', 'C06_ValuesShaped', 'C06_ValuesStruct'],
     'per_harness': dict(PARSER_PARAMS, **{'C08_Canonical': {'handler': 'groups_decide', 'ignore_kinds': ['growth']}}),
-    'timeout': {'quick': 900, 'thorough': 3600},
+    'timeout': {'quick': 900, 'thorough': 1200},
 }
 
 
@@ -215,7 +217,7 @@ PROPS['C17'] = {
     'text': 'PARTIAL (hybrid): along every path of Vector(), successful ParseVector (shaped inputs), Get/Set on a known metric, the scoring methods, Rating and Nomenclature, the number of executed allocation sites that the gc compiler reports as heap-allocated (go build -gcflags=-m, regenerated from the working tree on every run) is within the documented budget (Vector == 1, ParseVector <= 1, others 0); and Vector() never appends beyond the capacity lenVec computed (no reallocation), decided for every reachable object over the product of solver-enumerated bit-field groups. Counterexamples are replayed natively with testing.AllocsPerRun',
     'bounds': 'Vector/Get/Set/scores: all reachable objects, strings of any length; ParseVector: the shaped inputs of C01 (TAIL_N). Trusted, outside the claim: the compiler\'s escape analysis report, allocations inside the runtime and sync.Pool (steady state assumed)',
     'solvers': {'quick': ['z3'], 'thorough': ['z3', 'z3new']},
-    'timeout': {'quick': 900, 'thorough': 3600},
+    'timeout': {'quick': 900, 'thorough': 1200},
     'per_harness': {'h3[01]': {'quick': {'handler': 'groups_decide', 'params': {'TAIL_N': 10}}, 'thorough': {'handler': 'groups_decide', 'params': {'TAIL_N': 16}}},
                     'h20': {'quick': {'handler': 'groups_decide', 'params': {'TAIL_N': 6}}, 'thorough': {'handler': 'groups_decide', 'params': {'TAIL_N': 12}}},
                     'h40': {'quick': {'handler': 'groups_decide', 'params': {'TAIL_N': 6}}, 'thorough': {'handler': 'groups_decide', 'params': {'TAIL_N': 12}}},
@@ -230,7 +232,7 @@ PROPS['C18'] = {
     'text': 'documented error values: Get/Set on an unknown abbreviation return *ErrInvalidMetric with that abbreviation and Set with an illegal value ErrInvalidMetricValue (strings of any length, all reachable objects); ParseVector: wrong/missing header -> ErrInvalidCVSSHeader (v3, v4), and for strings with exactly one defect according to a reference single-defect classifier (written from the property text; strings with two or more defects are left unconstrained) the documented error with the right Abv',
     'bounds': 'Get/Set: the whole finite domain, strings of any length. ParseVector: ' + PARSER_BOUNDS,
     'solvers': {'quick': ['z3'], 'thorough': ['z3', 'z3new']},
-    'timeout': {'quick': 900, 'thorough': 3600},
+    'timeout': {'quick': 900, 'thorough': 1200},
     'per_harness': dict(PARSER_PARAMS, **{'C18_Parse$': {'quick': {'skip': True}, 'thorough': {}}}),
     'technique': PROPS['C01']['technique'],
 }
@@ -243,7 +245,7 @@ PROPS['C02'] = {
     'text': 'decided as the conjunction of solver-checked lemmas on the real code: (a) Vector(c) is the canonical serialisation of c for EVERY reachable object (C08_Canonical, no bound); (b) ParseVector accepts the canonical strings within the shaped-input bound (C01_AcceptShaped); (c) the parsed object returns on every Get the value written in the string (C06_ValuesShaped); (d) objects with equal Get values are == and every object reachable through Set/zero value satisfies the invariant (C07). (a)-(d) give ParseVector(Vector(c)) == c with equal Gets. A counterexample of any lemma is replayed natively',
     'bounds': '(a), (d): the whole finite domain. (b), (c): canonical vectors whose optional part is at most TAIL_N bytes (quick: v2 6, v3 12, v4 6; thorough 12/18/12) or whose optional elements have the lengths of one of the element-structured SHAPEs (STRUCT_SHAPES in gosmt/props.py; up to 12 elements), i.e. objects with few defined optional metrics or with one of those length patterns; objects with other canonical spellings are outside the parser lemmas and hence outside the claim',
     'solvers': {'quick': ['z3'], 'thorough': ['z3', 'z3new']},
-    'timeout': {'quick': 900, 'thorough': 3600},
+    'timeout': {'quick': 900, 'thorough': 1200},
     'per_harness': dict(PARSER_PARAMS, **{'C08_Canonical': {'handler': 'groups_decide', 'ignore_kinds': ['growth']}}),
     'technique': PROPS['C01']['technique'] + '; composition of lemmas',
 }
